@@ -59,6 +59,9 @@ type Env struct {
 	Seed   uint64
 	// Def is the caller's defaults object handed to Config.
 	Def *Cfg
+	// Wrapped is the index of a source that sits behind a transforming wrapper (0 = none; slot 0 is never wrapped):
+	// ill-typed probe values are not built for it.
+	Wrapped int
 
 	mu       sync.Mutex
 	cbLog    []CBEvent
